@@ -92,5 +92,6 @@ Refines == st = "done" => PagedRefines(Encode(ImageA), ps)
 Emit == st = "done" =>
   LET b == Encode(ImageA) IN
   PrintT(ToJson([cls |-> cls, ps |-> ps, bytes |-> b, image |-> Image(b), entry |-> Entry(b),
-                 atentry |-> AtAddr(b, Entry(b), 16), nfile |-> FileBackedFrom(b, Entry(b)), rels |-> rels, refines |-> PagedRefines(b, ps)]))
+                 atentry |-> AtAddr(b, Entry(b), 16), nfile |-> FileBackedFrom(b, Entry(b)),
+                 asis |-> AsIsImage(b, ps), asis_atentry |-> AsIsAt(b, ps, Entry(b), 16), rels |-> rels, refines |-> PagedRefines(b, ps)]))
 =============================================================================
